@@ -7,6 +7,7 @@ A plain seek, B lapped seek, C lap source (what would have been read next at the
 The executor only measures; every verdict is taken here."""
 import sys, time, json
 import vlib, zoo, seekgraph
+import c19_phys
 
 PID = 'C19'
 OV_EOF = -2
@@ -133,7 +134,8 @@ def parse(line):
             'src': s[0], 'sdec': int(s[1]), 'slap': int(s[2]),
             'k2': int(n[0]), 'ch2': int(n[1]), 'n2': int(n[2]), 'n': int(n[3]), 'avail': int(n[4]), 'follow': int(n[5]),
             'tail': d['T'], 'judged': int(l[0]), 'nfail': int(l[1]), 'first': int(l[2]), 'fch': int(l[3]), 'got': l[4], 'exp': l[5], 'last': int(l[6]), 'ndiff': int(l[7]), 'xlap': int(l[8]),
-            'V': d.get('V', '-'), 'H': d.get('H', 'ok'), 'Q': int(d.get('Q', '1'))}
+            'V': d.get('V', '-'), 'H': d.get('H', 'ok'), 'Q': int(d.get('Q', '1')),
+            'xf': int(d.get('F', '0:0:0:-1').split(':')[0]), 'npg': int(d.get('F', '0:0:0:-1').split(':')[1]), 'nrd': int(d.get('F', '0:0:0:-1').split(':')[2]), 'off0': int(d.get('F', '0:0:0:-1').split(':')[3]), 'D': d.get('D', '-')}
 
 
 def exposed_by_own_lapped_seek(hist):
@@ -165,6 +167,9 @@ def judge(chk, m, r, st):
         st['halfrate_refusals'] += 1
     rcA, rcB = r['rcA'], r['rcB']
     nostate_eos = r['src'] == 'eos_nostate'
+    # named predicate (physical-layout axis): the old handle has no decoder and its page cursor stands directly in front of a BOS page of ANOTHER
+    # logical stream inside the BOS group of its own link (e.g. after a raw seek to the first byte of a multiplexed link)
+    before_foreign_bos = r['rs'] < 4 and r['off0'] in st.get('foreign_bos', {}).get(m['file'], ())
     desc0 = f'{where} half={m["half"]} {m["op"]} after {m["hist"]}' + (f' | {m["hist2"]}' if m['kind'] == 'X' else '')
     if rcA != 0:
         # the plain seek fails: the lapped one must fail with the same code (or report EOF for a state-less handle at end of stream)
@@ -174,7 +179,7 @@ def judge(chk, m, r, st):
         if rcB == OV_EOF and nostate_eos:
             st['eof_nostate'] += 1
             return (v, oc, 'EOF-nostate-on-bad-arg')
-        chk.violation(f'{v}:failure_code_differs', f'{desc0}: plain seek returned {rcA}, lapped seek {rcB}', rep)
+        chk.violation('eof_before_foreign_bos_page_of_own_link' if (before_foreign_bos and rcB == OV_EOF) else f'{v}:failure_code_differs', f'{desc0}: plain seek returned {rcA}, lapped seek {rcB}', rep)
         return None
     if rcB == OV_EOF:
         if nostate_eos:
@@ -185,7 +190,7 @@ def judge(chk, m, r, st):
             return (v, oc, 'EOF-nothing-follows')
         # named predicate: the new position is the very end of a link that is not the last one (the audio that follows is the next link's)
         at_link_end = r['tA'] in st['link_starts'].get(m.get('file2') or m['file'], ())
-        key = 'eof_at_link_end_although_next_link_follows' if at_link_end else f'{v}:{oc}:eof_although_audio_follows'
+        key = 'eof_before_foreign_bos_page_of_own_link' if before_foreign_bos else ('eof_at_link_end_although_next_link_follows' if at_link_end else f'{v}:{oc}:eof_although_audio_follows')
         chk.violation(key, f'{desc0}: lapped call returned OV_EOF but {r["follow"]} samples follow the target (plain: 0, tell {r["tA"]}); old state ready={r["rs"]} link={r["k1"]}', rep)
         return None
     if rcB != 0:
@@ -306,14 +311,21 @@ def run(tier):
     passes = []
     # the sanitizer passes of the quick tier stop each read-through after 900 samples (the lap region is at most 256); thorough reads to the end everywhere
     aextra = [] if rich else ['--maxread', '900']
-    plan = [('seek/plain', exe_p, sc, sm, []), ('crosslap/plain', exe_p, xc, xm, []), ('seek/asan', exe_a, sc, sm, aextra), ('crosslap/asan', exe_a, xc, xm, aextra)]
+    plan = [('seek/plain', exe_p, sc, sm, []), ('crosslap/plain', exe_p, xc, xm, []), ('physical-layouts', None, [], [], []), ('seek/asan', exe_a, sc, sm, aextra), ('crosslap/asan', exe_a, xc, xm, aextra)]
     exhaustive = True
+    phys = {}
     for name, exe, c, m, extra in plan:
         if time.time() > t_end:
             exhaustive = False
             passes.append({'pass': name, 'cases': len(c), 'completed': False})
             continue
         t0 = time.time()
+        if name == 'physical-layouts':
+            # physical-layout axis (pylib/c19_phys.py): the same sweep on multiplexed / re-paged / chunk-read layouts of the same packets + differential oracle
+            phys = c19_phys.run_family(chk, sys.modules[__name__], tier, exe_p, exe_a, st, sigs, min(t_end, time.time() + (75 if tier == 'quick' else 600)))
+            exhaustive = exhaustive and phys['completed']
+            passes.append({'pass': name, 'cases': phys['cases'] + phys['reference_cases'] + phys['asan_cases'], 'completed': phys['completed'], 'wall_s': round(time.time() - t0, 1)})
+            continue
         execute(chk, exe, listfile, c, m, st, sigs, 'c19', extra)
         passes.append({'pass': name, 'cases': len(c), 'completed': True, 'wall_s': round(time.time() - t0, 1)})
     per_file = {}
@@ -355,6 +367,7 @@ def run(tier):
     chk.guard(st['lapped_n32'] > 0, 'lapped with 64-sample short blocks (lap length 32) and passed')
     chk.guard(st['halfrate_refusals'] > 0, 'lapping after a refused ov_halfrate was exercised')
     chk.guard(st['mixed_lapped'].get('10', 0) > 0 and st['mixed_lapped'].get('01', 0) > 0, 'ov_crosslap between handles with different half-rate settings lapped and passed, both directions')
+    c19_phys.finish(chk, phys, tier)
     return chk.finish()
 
 
@@ -362,6 +375,9 @@ def replay(path):
     r = json.load(open(path))
     m = r['replay']
     vlib.build('plain')
+    if 'phys' in m:
+        print('recorded:', r['description'])
+        return c19_phys.replay_case(m, sys.modules[__name__])
     _, listfile, models = seekgraph.load_models(file_set())
     byname = {x.name: x for x in models}
     exe = vlib.harness('plain', 'c19_lap')
